@@ -70,6 +70,8 @@ class AsgiResult:
         self.send_failed_at = None
         self.loop_errors = []
         self.pending_tasks = 0
+        self.sent_snapshots = []  # value of every event at the moment send() was called
+        self.events_mutated_after_send = 0
 
     def header_values(self, name):
         n = name.lower().encode('latin-1')
@@ -87,6 +89,17 @@ class AsgiResult:
         hs = sorted((k.decode('latin-1').lower(), v.decode('latin-1')) for k, v in self.headers
                     if isinstance(k, bytes) and isinstance(v, bytes))
         return (self.status, hs, self.body)
+
+
+def _snapshot(ev):
+    """Value of an event at one moment (containers copied; bytes/str/int are immutable)."""
+    if isinstance(ev, dict):
+        return {k: _snapshot(v) for k, v in ev.items()}
+    if isinstance(ev, (list, tuple)):
+        return [_snapshot(v) for v in ev]
+    if isinstance(ev, (bytearray, memoryview)):
+        return bytes(ev)
+    return ev
 
 
 class HttpMonitor:
@@ -221,7 +234,8 @@ def run_asgi_http(app, scope, events=None, fail_send_at=None, fail_exc=OSError, 
             if msg not in res.problems:
                 res.problems.append(msg)
             raise TooManyEvents(msg)
-        res.events.append(ev)
+        res.events.append(ev)                  # the very object the app handed over (a server may keep it queued)
+        res.sent_snapshots.append(_snapshot(ev))
         mon.on_send(ev)
         _client_gone()
         if res.complete and state['closed'] is not None and not state['closed'].done():
@@ -246,6 +260,15 @@ def run_asgi_http(app, scope, events=None, fail_send_at=None, fail_exc=OSError, 
             st.step()
     res.loop_errors = st.loop_errors[n_err:]
     del st.loop_errors[n_err:]
+    # a server is free to consume an event after send() returned (queues, buffered writers): what it then
+    # reads must still be what was sent
+    for i, (ev, snap) in enumerate(zip(res.events, res.sent_snapshots)):
+        now = _snapshot(ev)
+        if now != snap:
+            res.events_mutated_after_send += 1
+            if res.events_mutated_after_send <= 3:
+                res.problems.append('event %d was changed by the app after send() returned: sent %.200r, now %.200r'
+                                    % (i, snap, now))
     if outcome == 'done' and fail_send_at is None:
         if mon.state == 'init':
             res.problems.append('app returned without sending http.response.start')
